@@ -8,7 +8,7 @@
    ALL fault plans `plan : nat -> fault` — any number of faults at any positions, not only
    single faults and pairs. *)
 From Verif Require Import Base Scope Types Prog Pop Token Authorize System Config FaultLog DcrFault FaultSpec
-  Fresh C14Base C14Proofs.
+  Fresh C14Base C14Proofs C14Pairs.
 Local Open Scope N_scope.
 Local Open Scope list_scope.
 
@@ -153,6 +153,41 @@ Example ex_dcr_delete_fails :
   plan_hit (snd r) = true /\ snd (fst r) = DfErr /\ st_clients (fst (fst r)) = [blank_client 99].
 Proof. vm_compute. auto. Qed.
 
+(* DELETE /register, exactly: a 204 means that the storage delete of the addressed client was the LAST storage call
+   of the request (at most one call precedes it, the lookup; nothing is read again after the delete, so there is
+   no second read whose failure could be taken for "the client is already gone"), that it did not fail, and that
+   NO fault of the plan took effect.  A remove() that re-reads the client after a failed delete and acknowledges
+   when that read fails too is outside this: suite c14 plans fault PAIRS (the delete and the call after it). *)
+Theorem dcr_delete_ack_exact : forall w n o plan st,
+  let res := run_fault_log plan 0 (dcr_handler w n o) st in
+  snd (fst res) = DfDeleted ->
+  exists r tr0 rd, o = DfDelete r /\ evs (snd res) = tr0 ++ [(CDel (df_cid r), rd)] /\ rd <> RFail /\
+                   (List.length tr0 <= 1)%nat /\ (forall e, In e tr0 -> exists i rc, e = (CGet i, rc)) /\
+                   plan_hit (snd res) = false.
+Proof. exact dcr_delete_ack_exact_thm. Qed.
+Print Assumptions dcr_delete_ack_exact.
+
+(* the theorems above are for every plan; in particular for the plans suite c14 enumerates: two faults at two
+   positions p1, p2 of one request (any positions - one beyond the calls the request performs is inert) *)
+Theorem fault_pairs_negative_answer : forall w n now o st p1 f1 p2 f2,
+  let res := run_fault_log (plan_of [(p1, f1); (p2, f2)]) 0 (handler w n now o) st in
+  plan_hit (snd res) = true -> negative (snd (fst res)) = true \/ revoke_exception o (snd (fst res)) (snd res).
+Proof. exact fault_pairs_negative_thm. Qed.
+Print Assumptions fault_pairs_negative_answer.
+Theorem dcr_fault_pairs_negative : forall w n o st p1 f1 p2 f2,
+  let res := run_fault_log (plan_of [(p1, f1); (p2, f2)]) 0 (dcr_handler w n o) st in
+  plan_hit (snd res) = true -> snd (fst res) = DfErr.
+Proof. exact dcr_fault_pairs_negative_thm. Qed.
+Print Assumptions dcr_fault_pairs_negative.
+(* a pair of which BOTH faults take effect in one request: the code lookup answers not-found, the clean-up
+   DeleteGrantSessionByAuthorizationCode that only this error path performs fails; and the DCR delete whose
+   delete fails: the plan's second fault (call 2) names a call the request does not make *)
+Example ex_dcr_delete_pair :
+  let st := mkStore [blank_client 99] [] [] in
+  let res := run_fault_log (plan_of [(1%nat, FErr); (2%nat, FMiss)]) 0 (dcr_handler (mkWorld ex_cfg []) 3 (DfDelete (mkDfReq 99 true true false false))) st in
+  snd (fst res) = DfErr /\ log_kinds (snd res) = [KCGet; KCDel] /\ st_clients (fst (fst res)) = [blank_client 99].
+Proof. vm_compute. auto. Qed.
+
 (* ===================== 4. call sequences ===================== *)
 (* In every run (any store, any plan) the storage calls performed are a prefix of a word of the
    flow's expression (DESIGN.md Appendix A as regular expressions, FaultSpec.flow_re): in
@@ -270,3 +305,10 @@ Proof.
   intros (_ & C & _). vm_compute in C. destruct (C _ (or_introl eq_refl)) as [s [[] _]].
 Qed.
 Print Assumptions unbacked_without_one_index_refuted.
+
+(* a pair of faults of which BOTH take effect in one request (announced in section 3) *)
+Example ex_pair_both_hit :
+  let res := run_fault_log (plan_of [(0%nat, FMiss); (1%nat, FErr)]) 0 (handler ex_w 1 10%Z (OpToken GAuthorizationCode ex_code_req)) ex_store_s in
+  List.length (filter (fun e => fault_effective (fe_fault e) (fe_call e)) (snd res)) = 2%nat /\
+  snd (fst res) = Out (OErr EInvalidGrant) /\ fst (fst res) = ex_store_s.
+Proof. vm_compute. auto. Qed.
